@@ -97,9 +97,62 @@ Proof.
     first [ apply cat_empty_l | apply cat_empty_r | apply cat_eps_l | apply cat_eps_r | reflexivity ].
 Qed.
 
+(* syntactic equality is sound *)
+Lemma cs_eqb_eq a : forall b, cs_eqb a b = true -> a = b.
+Proof.
+  induction a as [|l1 h1|a1 IH1 a2 IH2|a1 IH1|a1 IH1 a2 IH2]; intros b H; destruct b; cbn [cs_eqb] in H;
+    try discriminate.
+  - reflexivity.
+  - apply andb_true_iff in H. destruct H as [H1 H2]. apply N.eqb_eq in H1, H2. congruence.
+  - apply andb_true_iff in H. destruct H as [H1 H2]. f_equal; [apply IH1|apply IH2]; assumption.
+  - f_equal. apply IH1. exact H.
+  - apply andb_true_iff in H. destruct H as [H1 H2]. f_equal; [apply IH1|apply IH2]; assumption.
+Qed.
+
+Lemma hi_eqb_eq a b : hi_eqb a b = true -> a = b.
+Proof.
+  destruct a, b; cbn [hi_eqb]; intro H; try discriminate; [|reflexivity].
+  apply N.eqb_eq in H. congruence.
+Qed.
+
+Lemma re_eqb_eq a : forall b, re_eqb a b = true -> a = b.
+Proof.
+  induction a as [| |cs|a1 IH1 a2 IH2|a1 IH1 a2 IH2|a1 IH1 lo hi]; intros b H; destruct b; cbn [re_eqb] in H;
+    try discriminate.
+  - reflexivity.
+  - reflexivity.
+  - f_equal. apply cs_eqb_eq. exact H.
+  - apply andb_true_iff in H. destruct H as [H1 H2]. f_equal; [apply IH1|apply IH2]; assumption.
+  - apply andb_true_iff in H. destruct H as [H1 H2]. f_equal; [apply IH1|apply IH2]; assumption.
+  - apply andb_true_iff in H. destruct H as [H12 H3]. apply andb_true_iff in H12. destruct H12 as [H1 H2].
+    apply N.eqb_eq in H2. apply hi_eqb_eq in H3. f_equal; [apply IH1; exact H1|exact H2|exact H3].
+Qed.
+
+Lemma alt_mem_lang x s : in_lang x s -> forall r, alt_mem x r = true -> in_lang r s.
+Proof.
+  intros Hx r. induction r as [| |cs|a IHa b IHb|a IHa b IHb|a IHa lo hi]; cbn [alt_mem]; intro H;
+    try (apply re_eqb_eq in H; subst x; exact Hx).
+  apply orb_true_iff in H. cbn [in_lang]. destruct H as [H|H]; [left; apply IHa|right; apply IHb]; exact H.
+Qed.
+
+Lemma alt_cons_correct x acc s : in_lang (alt_cons x acc) s <-> in_lang x s \/ in_lang acc s.
+Proof.
+  unfold alt_cons. destruct (alt_mem x acc) eqn:Hm.
+  - split; [intro H; right; exact H|]. intros [H|H]; [|exact H]. exact (alt_mem_lang _ _ H _ Hm).
+  - destruct acc; cbn [in_lang]; tauto.
+Qed.
+
+Lemma alt_add_correct x : forall acc s, in_lang (alt_add x acc) s <-> in_lang x s \/ in_lang acc s.
+Proof.
+  induction x as [| |cs|a IHa b IHb|a IHa b IHb|a IHa lo hi]; intros acc s; cbn [alt_add];
+    try apply alt_cons_correct.
+  - cbn [in_lang]. tauto.
+  - rewrite IHa, IHb. cbn [in_lang]. tauto.
+Qed.
+
 Lemma mk_alt_correct a b s : in_lang (mk_alt a b) s <-> in_lang (Alt a b) s.
 Proof.
-  destruct a; destruct b; cbn [mk_alt in_lang]; tauto.
+  unfold mk_alt. rewrite !alt_add_correct. cbn [in_lang]. tauto.
 Qed.
 
 (* ---- derivative --------------------------------------------------------------------------------- *)
